@@ -58,7 +58,7 @@ def _(self, token_store, pivot, current):
 def _(self):
     requires(self != None and implies(self.g_ts != None, AbsInv(self.g_ts)))
     modifies('TokenStore.g_view', 'TokenStore.g_vlen', 'RawTokenModel.g_store', 'RawTokenModel.g_pos')
-    ensures(result != None and len(result) >= 1)
+    ensures(result != None and fresh(result) and len(result) >= 1)
     ensures(forall(lambda k: implies(0 <= k and k < len(result), result[k] != None and allocated(result[k]) and result[k].g_store is None), result[k]))
     ensures(forall(lambda j, k: implies(0 <= j and j < k and k < len(result), result[j] != result[k])))
     ensures(implies(old(self.g_ts) is None, len(result) == 1 and result[0] is self))
